@@ -73,6 +73,16 @@ def batches(tier, seed):
         reg = list(range(len(maps)))
         if variant >= 0.1 and rng.random() < 0.6:
             rng.shuffle(reg)
+        if rng.random() < 0.06:
+            # two distinct source nodes with one name (known finding K35: mappings recognise source nodes by their name)
+            pool = [o for m in maps if m[1][0] == 'opt' for o, _ in m[1][3] if o is not None] + \
+                   [k_ for m in maps if m[1][0] == 'exist' for k_, _ in m[1][1]]
+            if pool:
+                a_ = rng.choice(pool)
+                others_ = [n_ for n_ in range(src['n']) if n_ != a_]
+                if others_:
+                    b_ = rng.choice(others_)
+                    src['names'] = {str(a_): 'SAME', str(b_): 'SAME'}
         cases.append({'src': src, 'sup': sup, 'maps': maps, 'reg': reg, 'nonfinal': rng.random() < 0.05, '_i': i})
     yield 'g-sup', cases
 
@@ -241,8 +251,13 @@ def _origin_also_derives_option(case):
     return False
 
 
+K35_CLAUSES = ('resolved-instance-differs', 'resolve-fails-on-complete-mapping', 'rejected-by-model-but-resolved', 'sup-initialisation-raises:KeyError', 'resolve-raises:KeyError')
+
+
 def match_known(case, fail, known):
     for k in known:
+        if k.get('id') == 'K35' and case['src'].get('names') and fail.get('clause') in K35_CLAUSES:
+            return k
         if k.get('id') == 'K27' and fail.get('clause') == 'resolve-fails-on-complete-mapping' and _origin_also_derives_option(case):
             return k
     return None
